@@ -162,6 +162,17 @@ def _perturb_mode(rng: random.Random, recipe: dict[str, Any]) -> str:
     return rng.choice(["add", "add", "copy", "mulpos"])
 
 
+def _maybe_dag(rng: random.Random, r0: dict[str, Any], prob: float) -> dict[str, Any]:
+    """With probability ``prob`` replace a region-graph recipe by a DAG recipe with the same input
+    and sum parameterisation (not region-graph shaped: shared inputs and sub-circuits)."""
+    if r0.get("kind") != "rg" or rng.random() >= prob:
+        return r0
+    from . import dag_recipes
+
+    return dag_recipes.gen_dag(rng, input_spec=r0["input"], sum_spec=r0["sum"], max_vars=4,
+                               nc=r0.get("nc", 1))
+
+
 def gen_c10(rng: random.Random, tier: str) -> Plan:
     monotonic = rng.random() < 0.5
     cfg = _flags(rng, monotonic)
@@ -191,6 +202,9 @@ def gen_c10(rng: random.Random, tier: str) -> Plan:
         r0 = recipes.gen_rg_circuit(rng, monotonic=monotonic, rg=rg, kinds=kinds)
         if not monotonic and cfg["semiring"] == "complex-lse-sum" and rng.random() < 0.5:
             recipes.make_complex(r0)
+        r0 = _maybe_dag(rng, r0, 0.15)
+        if r0["kind"] == "dag":
+            nv = r0["nv"]
         scope0 = list(range(nv))
     ops: list[dict[str, Any]] = []
     m = _Model()
@@ -198,7 +212,7 @@ def gen_c10(rng: random.Random, tier: str) -> Plan:
                 "opt": _opt_spec(rng)})
     m.add("b0", scope0, scope0, 0, 0, ("b0",))
     base_recipes = {"b0": r0}
-    if not hand and rng.random() < 0.45:
+    if r0["kind"] == "rg" and rng.random() < 0.45:
         r1 = recipes.gen_rg_circuit(rng, monotonic=monotonic, rg=rg, kinds=[r0["input"]["type"]])
         r1["input"] = dict(r0["input"])  # same input family, so that multiply has a rule
         r1["sp"] = r0["sp"] if rng.random() < 0.7 else r1["sp"]
@@ -487,6 +501,10 @@ def gen_c19(rng: random.Random, tier: str) -> Plan:
         r0 = recipes.gen_rg_circuit(rng, monotonic=monotonic, rg=rg, kinds=kinds)
         if not monotonic and cfg["semiring"] == "complex-lse-sum" and rng.random() < 0.5:
             recipes.make_complex(r0)
+        r0 = _maybe_dag(rng, r0, 0.15)
+        if r0["kind"] == "dag":
+            nv = r0["nv"]
+            rg = None
         scope0 = list(range(nv))
     cfg["checks"] = ["S1", "S3", "memo", "D2"]
     cfg["faults"] = False
@@ -607,6 +625,9 @@ def gen_c12(rng: random.Random, tier: str) -> Plan:
         nv = recipes.rg_num_vars(r0["rg"])
         gaussian = r0["input"]["type"] == "gaussian"
         integrable = r0["input"]["type"] != "binomial"
+        r0 = _maybe_dag(rng, r0, 0.3)
+        if r0["kind"] == "dag":
+            nv = r0["nv"]
     else:
         r0 = templates_recipes.gen_template(rng)
         nv = r0["nv"]
